@@ -40,7 +40,7 @@ SHARDS = {"quick": 4, "thorough": 16}
 RULE = (
     "(a) complete enumeration, per catalogue operation (17 operations), of (k-th call-out, exception class in {RuntimeError, TypeError, "
     "KeyboardInterrupt, custom BaseException}) for every k up to the dry-run count; (b) Hypothesis histories of 3..20 operations from a "
-    "25-operation alphabet. After each, 14 probes. Non-trivial (a) = the fault fired while jaxtyping held transient state (a context "
+    "26-operation alphabet. After each, 15 probes. Non-trivial (a) = the fault fired while jaxtyping held transient state (a context "
     "pushed, the flatten-mode flag set or a leaf label set; read from the private storage at the moment of the fault, for classification "
     "only); non-trivial (b) = history containing a failing or raising check or a decoration sharing an annotation object; distinct by "
     "(operation, k, exception) resp. operation list."
@@ -324,6 +324,7 @@ def probes_once():
         out.append(("bound afterwards", obs.bindings()[0], {"a": 3, "b": 4}))
         out.append(("conflicting shape rejected", obs.verdict(np.zeros((3, 5), dtype="float32"), Float32[np.ndarray, "a b"]), "False"))
         out.append(("structured '?' PyTree works", obs.verdict((np.zeros((3,)), np.zeros((4,))), PyTree[Shaped[np.ndarray, "?k"], "T"]), "True"))
+        out.append(("PyTree[int] rejects a str leaf", obs.verdict([1, "s"], PyTree[int]), "False"))
         out.append(("PyTree leaf with wrong dtype rejected", obs.verdict((np.zeros((3,), dtype="int32"),), PyTree[Float[np.ndarray, "n"]]), "False"))
     out.append(("shared annotation rejects a non-array", obs.verdict("a string", SHARED), "False"))
     out.append(("shared annotation rejects a wrong shape", obs.verdict(np.zeros((2, 2), dtype="float32"), SHARED), "False"))
@@ -528,6 +529,19 @@ def _gen_ann(ann):
     list(h(np.zeros((2,), dtype="float32")))
 
 
+def h_generator_old_pytree():
+    """PyTree[int] is one cached class object process-wide: decorating a generator that mentions it must not change it."""
+    def g(x):
+        yield x
+
+    g.__annotations__ = {"x": int, "return": Iterator[PyTree[int]]}
+    with warnings.catch_warnings():
+        warnings.simplefilter("ignore")
+        h = jaxtyped(g)
+        h2 = jaxtyped(typechecker=None)(g)
+    list(h(1)), list(h2(2))
+
+
 def h_resubscribe():
     for _ in range(3):
         a = Float[np.ndarray, "1"]
@@ -607,7 +621,7 @@ HISTORY_OPS = {
     "check-pass": h_check_pass, "check-fail": h_check_fail, "check-raise": h_check_raise, "toplevel-check": h_toplevel_check,
     "pytree-pass": h_pytree_pass, "pytree-fail": h_pytree_fail, "pytree-q-misuse": h_pytree_q_misuse, "pytree-unbound-composite": h_pytree_unbound_composite,
     "decorate-shared-typeguard": h_decorate_shared_tg, "decorate-shared-beartype": h_decorate_shared_bt, "decorate-shared-old": h_decorate_shared_old,
-    "generator-old-unpickled": h_generator_old_unpickled, "generator-new-shared": h_generator_new_shared, "generator-old-fresh": h_generator_old_fresh, "generator-old-shared": h_generator_old_shared,
+    "generator-old-unpickled": h_generator_old_unpickled, "generator-old-pytree": h_generator_old_pytree, "generator-new-shared": h_generator_new_shared, "generator-old-fresh": h_generator_old_fresh, "generator-old-shared": h_generator_old_shared,
     "resubscribe": h_resubscribe, "pickle": h_pickle, "hook": h_hook, "hook-exception": h_hook_exception, "config-roundtrip": h_config_roundtrip,
     "call-ok": h_call_ok, "call-ill": h_call_ill, "call-raises": h_call_raises, "thread-activity": h_thread_activity, "name-format": h_name_format,
 }
